@@ -1,6 +1,10 @@
 use chrono::Datelike;
 
-use crate::{locale::Locale, number_format::to_precision};
+use crate::{
+    constants::{MAXIMUM_DATE_SERIAL_NUMBER, MINIMUM_DATE_SERIAL_NUMBER},
+    locale::Locale,
+    number_format::to_precision,
+};
 
 use super::{
     dates::{date_to_serial_number, from_excel_date},
@@ -794,6 +798,10 @@ pub(crate) fn parse_date(value: &str, locale: &Locale) -> Result<(i32, String), 
         Ok(n) => n,
         Err(_) => return Err("Not a valid date".to_string()),
     };
+    // only dates that have a serial number the engine can turn back into a date
+    if !(MINIMUM_DATE_SERIAL_NUMBER..=MAXIMUM_DATE_SERIAL_NUMBER).contains(&serial_number) {
+        return Err("Not a valid date".to_string());
+    }
     if is_iso_date {
         Ok((
             serial_number,
